@@ -25,6 +25,9 @@ LEVEL_TEXT = ("c20_refuted (witness on the run of the counterparty spec against 
               "never requested.  c20_gap_and_burst: invariant over the burst (expected = position+1 in resend_request_sent until "
               "the first GapFill, expected = position in continuous after it): with a GapFill the session ends aligned with the "
               "counterparty's next number, without it one ahead; every replayed application message is delivered.  "
+              "c20_burst_one_ahead: the burst from ANY running state one ahead (resend_request_sent, or continuous after the session "
+              "served the counterparty's own ResendRequest that revealed the gap); c20_rr_reveals_example: that history as an "
+              "accepted witness (run satisfies c20_ok; the intermediate state meets the hypotheses); "
               "c20_gapfill_partial: whole streams of episodes (in sequence | gap + burst containing a GapFill): alive, aligned, "
               "everything delivered.  c20_nogap: no losses => aligned throughout, each application message delivered once, in "
               "order.  c20_gapfill_nonvacuous / c20_gapfill_example: the hypotheses hold for the spec's own bytes and the run "
@@ -52,11 +55,14 @@ ASSUMPTIONS = ["the counterparty answers a ResendRequest synchronously with one 
                "trailing lost messages (nothing transmitted after them) are not owed: the session cannot know about them yet"]
 RULE = ("scenarios (coq/C20/Scenario.v): START (initiator/acceptor; file/memory/no persister; sometimes a receive number "
         "argument with the counterparty starting at, or above, that number), the counterparty's Logon, then transmissions "
-        "(application D/F/8/j, Heartbeat, TestRequest, Reject) of which runs of 1..4 are LOST, the session's own sends, "
+        "(application D/F/8/j, Heartbeat, TestRequest, Reject, the counterparty's own ResendRequest for the session's messages, an "
+        "orderly Logout, an unsolicited SequenceReset-GapFill) of which runs of 1..4 are LOST, the session's own sends, "
         "clock steps, restarts (file: numbers recovered; memory/none: forgotten, so the counterparty's Logon is above "
         "expected), decisions for the replay (replay/gap-fill per Reject, split points of gap-fill runs).  Gap shapes "
         "(kinds of the lost messages x kind of the message that reveals the gap x decisions) are enumerated exhaustively "
-        "up to 2 lost messages (thorough: 3, plus a sample of 4) and embedded at random positions; the rest is random.  The extracted "
+        "up to 2 lost messages (thorough: 3, plus a sample of 4) and embedded at random positions; the gap is also revealed by a TestRequest, by the counterparty's ResendRequest "
+        "(both sides lost messages: the session requests AND serves a resend; file / memory / no persister, stores with holes), "
+        "by a Logout and by a SequenceReset; the rest is random.  The extracted "
         "counterparty specification produces the IN bytes; the REAL session runs that history.  non-trivial = the session "
         "delivered at least one message and processed at least three; distinct = distinct scenario lines")
 
@@ -123,7 +129,10 @@ def fl(fields):
     return ",".join("%s=%s" % (k, S.hx(str(v))) for k, v in fields)
 
 
-KINDS = "ahjt"          # application, heartbeat, reject, test request
+# kinds of counterparty messages: a application, h Heartbeat, j Reject, t TestRequest, r ResendRequest (the counterparty
+# asks for OUR messages: the session both requests and serves a resend when it reveals a gap), o Logout, q an unsolicited
+# SequenceReset-GapFill (NewSeqNo = its own number + 1)
+KINDS = "ahjtroq"
 
 
 class Scn:
@@ -138,8 +147,11 @@ class Scn:
         if rs:
             p.append("rs=%d" % rs)
         self.acts = [" ".join(p)]
+        self.pn = 1             # the counterparty's next number
+        self.sent = 1           # rough count of the session's own outbound numbers (Logon included)
         if pnum is not None:
             self.acts.append("P %d" % pnum)
+            self.pn = pnum
 
     def line(self):
         return "|".join(self.acts)
@@ -154,12 +166,26 @@ class Scn:
             self.acts.append(("%s 0 %s" % (tag, fl([(112, S.word(rng))]))) if rng.random() < 0.3 else "%s 0" % tag)
         elif kind == "t":
             self.acts.append("%s 1 %s" % (tag, fl([(112, S.word(rng))])))
+            if not lost:
+                self.sent += 1
+        elif kind == "r":
+            b = rng.randint(1, max(1, self.sent + 1))
+            e = rng.choice([0, 0, 0, rng.randint(b, b + 3)])
+            self.acts.append("%s 2 %s" % (tag, fl([(7, b), (16, e)])))
+            if not lost:
+                self.sent += 1
+        elif kind == "o":
+            self.acts.append(("%s 5 %s" % (tag, fl([(58, "bye")]))) if rng.random() < 0.5 else "%s 5" % tag)
+        elif kind == "q":
+            self.acts.append("%s 4 %s" % (tag, fl([(123, "Y"), (36, self.pn + 1)])))
         else:
             f = [(45, rng.randint(1, 9))] + ([(58, S.word(rng, 1, 10))] if rng.random() < 0.4 else [])
             self.acts.append("%s 3 %s" % (tag, fl(f)))
+        self.pn += 1
 
     def logon(self):
         self.acts.append("LOGON")
+        self.pn += 1
 
     def decide(self, bits):
         if bits:
@@ -168,6 +194,7 @@ class Scn:
     def send(self):
         t = self.rng.choice(["D", "D", "F", "8"])
         self.acts.append("SEND " + S.spec(t, S.app_fields(self.rng, t, self.now)))
+        self.sent += 1
 
     def clock(self):
         self.now += self.rng.randrange(1, 5000) * 10**6
@@ -193,12 +220,12 @@ class Scn:
         self.msg(reveal)
 
 
-def gap_shapes(maxlost):
+def gap_shapes(maxlost, reveals="ahj"):
     """kinds of the lost messages x kind of the message that reveals the gap x decisions"""
     out = []
     for n in range(1, maxlost + 1):
         for lost in itertools.product("ahj", repeat=n):
-            for reveal in "ahj":
+            for reveal in reveals:
                 seq = list(lost) + [reveal]
                 nrej = seq.count("j")
                 for rb in itertools.product([0, 1], repeat=nrej):
@@ -225,11 +252,13 @@ def gap_shapes(maxlost):
     return list(dict.fromkeys(out))
 
 
-def scn_gap(rng, shape, two=False):
-    s = Scn(rng)
+def scn_gap(rng, shape, two=False, persist=None):
+    s = Scn(rng, persist=persist)
     s.logon()
     s.filler(rng.randint(0, 3))
     s.gap(*shape)
+    if shape[1] == "o":          # the counterparty logged out: nothing follows
+        return s.line()
     s.filler(rng.randint(1, 3))
     if two:
         lost = "".join(rng.choice("ahj") for _ in range(rng.randint(1, 3)))
@@ -238,11 +267,40 @@ def scn_gap(rng, shape, two=False):
     return s.line()
 
 
+def scn_rr_gap(rng, persist):
+    """both sides lost messages: the inbound gap is revealed by the counterparty's own ResendRequest, so the session
+    requests a resend AND serves one (from a file / memory persister, or with a single GapFill without one); the session's
+    store has holes (its admin messages) and various sizes"""
+    s = Scn(rng, persist=persist)
+    s.logon()
+    for _ in range(rng.randint(1, 5)):
+        r = rng.random()
+        if r < 0.55:
+            s.send()
+        elif r < 0.75:
+            s.msg("t")                       # the session answers with a Heartbeat: a hole in its store
+        elif r < 0.9:
+            s.msg("a")
+        else:
+            s.clock()
+    lost = [rng.choice("ahj") for _ in range(rng.randint(1, 3))]
+    if "a" not in lost and rng.random() < 0.8:
+        lost[rng.randrange(len(lost))] = "a"
+    s.gap("".join(lost), "r", [rng.randint(0, 1) for _ in range(6)])
+    s.filler(rng.randint(1, 3), kinds="aaahtr")
+    if rng.random() < 0.3:
+        s.gap(rng.choice("ah"), rng.choice("ahr"), [rng.randint(0, 1) for _ in range(4)])
+        s.filler(1)
+    return s.line()
+
+
 def scn_nogap(rng):
     rs = rng.choice([0, 0, 0, rng.randint(2, 30)])
     s = Scn(rng, rs=rs, pnum=(rs if rs else None), hb=rng.choice([None, 5, 60]))
     s.logon()
-    s.filler(rng.randint(1, 9), kinds="aaaahtj")
+    s.filler(rng.randint(1, 9), kinds="aaaahtjrq")
+    if rng.random() < 0.15:
+        s.msg("o")                           # an orderly Logout ends the history
     return s.line()
 
 
@@ -310,6 +368,17 @@ def gen_cases(rng, tier):
         shapes = small + big[:600]
     for sh in shapes:
         cases.append(Case(scn_gap(rng, sh), "gap-shape"))
+    # the gap is revealed by a TestRequest / by the counterparty's own ResendRequest (all shapes up to 2 lost messages;
+    # every persister), by a Logout / an unsolicited SequenceReset (their own findings: the small shapes)
+    ext = gap_shapes(3 if thorough else 2, "tr")
+    if not thorough:
+        ext = [x for x in ext if len(x[0]) <= 1 or x[1] == "r"]
+    for k, sh in enumerate(ext):
+        cases.append(Case(scn_gap(rng, sh, persist=["file", "mem", "none"][k % 3]), "gap-shape-admin"))
+    for sh in gap_shapes(2 if thorough else 1, "oq"):
+        cases.append(Case(scn_gap(rng, sh), "gap-shape-logout-seqreset"))
+    for k in range(600 if thorough else 90):
+        cases.append(Case(scn_rr_gap(rng, ["file", "mem", "none"][k % 3]), "both-sides-resend"))
     for _ in range(300 if thorough else 50):
         cases.append(Case(scn_gap(rng, rng.choice(shapes), two=True), "two-gaps"))
     for _ in range(600 if thorough else 110):
@@ -326,6 +395,7 @@ def gen_cases(rng, tier):
 def extra_search(rng, seeds, tier):
     shapes = gap_shapes(2)
     out = [Case(scn_gap(rng, rng.choice(shapes)), "extra") for _ in range(150)]
+    out += [Case(scn_rr_gap(rng, rng.choice(["file", "mem", "none"])), "extra") for _ in range(100)]
     out += [Case(scn_nogap(rng), "extra") for _ in range(100)]
     out += [Case(scn_random(rng), "extra") for _ in range(150)]
     return out
@@ -357,11 +427,15 @@ CLASSIFIERS = {
     # a Reject (35=3) arrives above the expected number (c20_gapfill_partial only lets application messages and
     # Heartbeats reveal a gap: `reveals`)
     "gap_revealed_by_reject": lambda case, r, m: _cls(case) == 3,
+    # a Logout arrives above the expected number (`reveals` admits application messages and Heartbeats only)
+    "gap_revealed_by_logout": lambda case, r, m: _cls(case) == 4,
+    # a SequenceReset arrives above the expected number outside a replay burst
+    "gap_revealed_by_sequence_reset": lambda case, r, m: _cls(case) == 5,
 }
 
 
 def extra_evidence(ctx):
-    cls = {0: 0, 1: 0, 2: 0, 3: 0}
+    cls = {0: 0, 1: 0, 2: 0, 3: 0, 4: 0, 5: 0}
     exact = 0
     resend = 0
     for c, r in zip(ctx["cases"], ctx["impl"]):
@@ -371,5 +445,5 @@ def extra_evidence(ctx):
             exact += 1 if h[2] else 0
         if "33353d32" in r:          # 35=2 in an OUT
             resend += 1
-    return {"c20": {"clean_histories": cls[0], "logon_above_expected": cls[1], "gap_without_gapfill": cls[2], "gap_revealed_by_reject": cls[3],
+    return {"c20": {"clean_histories": cls[0], "logon_above_expected": cls[1], "gap_without_gapfill": cls[2], "gap_revealed_by_reject": cls[3], "gap_revealed_by_logout": cls[4], "gap_revealed_by_sequence_reset": cls[5],
                     "exactly_once_histories": exact, "histories_with_resend_request": resend}}
